@@ -12,7 +12,7 @@ import (
 )
 
 func init() {
-	register("C08", "Structural clauses behind schedule independence, decided on all paths: every SendMsg of the transfer goes through the mutex-holding wrapper (field provenance + lockset), all RecvMsg sites of an end sit in one goroutine started once, the shared maps/counters are only touched with their mutex held (must-hold lockset), writer results are published before the channel that signals them is closed, and every struct field mutated after construction is classified (lock / publish / confined / reasoned). What the decoder stores in a message never aliases its input (the transport buffer the next RecvMsg refills while other goroutines still read the previous stat): Unmarshal delegates to the copying UnmarshalVT and UnmarshalVTUnsafe has no caller. The ids both ends key their maps by decode exactly: every varint loop of the generated decoders masks with 0x7F, steps by 7, refuses a shift of 64 and ends below 0x80 (shared with C20). Does not decide absence of data races in general nor equality of outcomes across schedules.", runC08)
+	register("C08", "Structural clauses behind schedule independence, decided on all paths: every SendMsg of the transfer goes through the mutex-holding wrapper (field provenance + lockset), all RecvMsg sites of an end sit in one goroutine started once, the shared maps/counters are only touched with their mutex held (must-hold lockset), writer results are published before the channel that signals them is closed, and every struct field mutated after construction is classified (lock / publish / confined / reasoned). What the decoder stores in a message never aliases its input (the transport buffer the next RecvMsg refills while other goroutines still read the previous stat): Unmarshal delegates to the copying UnmarshalVT and UnmarshalVTUnsafe has no caller. The ids both ends key their maps by decode exactly: every varint loop of the generated decoders masks with 0x7F, steps by 7, refuses a shift of 64 and ends below 0x80 (shared with C20). Every message sent is a packet allocated for that send, never one kept in a field and shared between the file workers. Does not decide absence of data races in general nor equality of outcomes across schedules.", runC08)
 }
 
 // lockTable: (struct, field) -> mutex field, frozen from the code (DESIGN R08.3).
@@ -50,6 +50,54 @@ func runC08(c *Ctx) {
 	// the ids both ends key their maps by are the ids sent: varint decoding
 	// of the packet header is exact (shared with C20)
 	r20_7(c, "R08.12")
+	r08_13(c, "R08.13")
+}
+
+// R08.13: a message belongs to the send it was built for.
+//
+// The stream's SendMsg is serialised by syncStream, but what it is handed is
+// read inside the lock and written outside of it: a packet kept in a field and
+// re-used by the four file workers ("only the ID differs") is overwritten by
+// the next worker before the first got the lock. Every message the transfer
+// code sends is a packet allocated for that send, in the sending function or
+// in a helper it calls - never one loaded from a field, a captured variable
+// or a package variable.
+func r08_13(c *Ctx, rule string) {
+	c.R.Rule(rule, "every SendMsg of package fsutil (the serialising wrapper's own forwarding excepted) is handed a packet allocated for that send, not one kept in a field, captured variable or global and shared between sends")
+	n := 0
+	for _, fn := range transferFuncs(c, "fsutil") {
+		eng.InstrsShallow(fn, func(in ssa.Instruction) {
+			if !c.P.IsCallTo(in, "(fsutil.Stream).SendMsg", "fsutil.(*syncStream).SendMsg") {
+				return
+			}
+			call := in.(ssa.CallInstruction)
+			args := call.Common().Args
+			if len(args) == 0 {
+				return
+			}
+			raw := args[len(args)-1]
+			// the wrapper forwards what it was given
+			if q, isP := eng.Strip(raw).(*ssa.Parameter); isP && q.Parent() == fn && !c.P.Transparent(fn) {
+				return
+			}
+			n++
+			_, fresh := c.packetOf(call)
+			if !fresh {
+				// a helper that sends what its callers built: each of them
+				if rs := eng.ResolveAll(eng.Strip(raw)); len(rs) > 1 {
+					fresh = true
+					for _, r := range rs {
+						al, isA := eng.Strip(r).(*ssa.Alloc)
+						if !isA || !strings.HasSuffix(types.TypeString(al.Type(), nil), "types.Packet") {
+							fresh = false
+						}
+					}
+				}
+			}
+			c.R.Check(fresh, rule, c.siteName(call)+"/fresh-message", c.pos(call), "sends a packet allocated for this send", "the message sent here is not a packet allocated for this send (it is kept in a field, a captured variable or a global and re-used): concurrent senders overwrite it between filling it in and the locked write, so one id is sent twice and another never")
+		})
+	}
+	c.R.Floor(rule, "SendMsg sites in package fsutil", n, 8)
 }
 
 // R08.1: all sends are serialised.
